@@ -374,3 +374,40 @@ META = {
                     "lemma instances used by the two inverse round trips: sin(theta) > 0 on (0, pi) and injectivity of "
                     "(cos, sin) on a half-open turn (lean/HolopyLemmas.lean: sin_pos_of_pos_of_lt_pi, angle_eq_of_cos_sin_eq)"],
 }
+
+
+@contract("C19", "conversions_special_floats", [M + "transform_cartesian_to_spherical", M + "transform_cartesian_to_cylindrical",
+                                                M + "transform_cylindrical_to_spherical", M + "transform_spherical_to_cylindrical"], native_only=True,
+          bounded="native runs: every combination (11^3 points) of signed zeros, +-1, tiny and huge magnitudes and ordinary values per run "
+                  "(IEEE special cases that mathematical reals cannot represent)")
+def conversions_special_floats(c):
+    """in floating point too: r, rho >= 0, polar angle in [0, pi], azimuth in [0, 2 pi] for every point - including points on the axes
+    and half-planes written with a negative zero - and +0.0 / -0.0 spellings of the same point get the same coordinates"""
+    import holopy.core.math as hm
+    import itertools
+    pool = [0.0, -0.0, 1.0, -1.0, 1e-300, -1e-300, 1e150, -1e150, 0.5, -2.5, c.real("ordinary_value", sample=(-5, 5))]
+    p = np.array(list(itertools.product(pool, repeat=3)), dtype=float).T               # every combination: 1331 points per run
+    with np.errstate(all='ignore'):
+        sph = hm.transform_cartesian_to_spherical(p)
+        cyl = hm.transform_cartesian_to_cylindrical(p)
+        sph2 = hm.transform_cylindrical_to_spherical(cyl)
+        q = np.where(p == 0, np.abs(p), p)                     # the same points with every zero written +0.0
+        sph_q, cyl_q = hm.transform_cartesian_to_spherical(q), hm.transform_cartesian_to_cylindrical(q)
+    two_pi = 2 * np.pi
+    fin = np.all(np.isfinite(sph), axis=0) & np.all(np.isfinite(cyl), axis=0)          # (1e150)^2 overflows: not the subject here
+    sph, cyl, sph2, sph_q, cyl_q, p = sph[:, fin], cyl[:, fin], sph2[:, fin], sph_q[:, fin], cyl_q[:, fin], p[:, fin]
+
+    def first_bad(ok):
+        bad = np.flatnonzero(~ok)
+        return None if len(bad) == 0 else "point %r -> spherical %r, cylindrical %r" % (p[:, bad[0]].tolist(), sph[:, bad[0]].tolist(), cyl[:, bad[0]].tolist())
+    ok = (sph[0] >= 0) & (sph[1] >= 0) & (sph[1] <= np.pi) & (sph[2] >= 0) & (sph[2] <= two_pi)
+    c.ensures("spherical-ranges", bool(ok.all()), detail=first_bad(ok))
+    ok = (cyl[0] >= 0) & (cyl[1] >= 0) & (cyl[1] <= two_pi)
+    c.ensures("cylindrical-ranges", bool(ok.all()), detail=first_bad(ok))
+    ok = (sph2[0] >= 0) & (sph2[1] >= 0) & (sph2[1] <= np.pi) & (sph2[2] >= 0) & (sph2[2] <= two_pi)
+    c.ensures("composed-conversion-ranges", bool(ok.all()), detail=first_bad(ok))
+    dang = (lambda a, b: np.minimum(np.abs(a - b), np.abs(np.abs(a - b) - two_pi)))
+    # (the azimuth of a point on the z axis and the polar angle of the origin are arbitrary: only their ranges are required there)
+    off_axis, off_origin = cyl[0] > 0, sph[0] > 0
+    ok = ((dang(sph[2], sph_q[2]) < 1e-12) & (dang(cyl[1], cyl_q[1]) < 1e-12) | ~off_axis) & ((np.abs(sph[1] - sph_q[1]) < 1e-12) | ~off_origin)
+    c.ensures("signed-zero-spelling-irrelevant", bool(ok.all()), detail=first_bad(ok))
